@@ -49,7 +49,7 @@ def _velocity(name, dim, shape, dtype):
     return v
 
 
-def case_dt(kind, shape, dtype, nus, cfls, rho=1.0):
+def case_dt(kind, shape, dtype, nus, cfls, rho=1.0, x_range=1.0):
     """One simulator per (kind, shape, dtype, nu, cfl) for small grids; the largest grid of each
     dimension reuses one object and sets the public attributes (reported in the evidence)."""
     real_t = np.dtype(dtype).type
@@ -63,11 +63,11 @@ def case_dt(kind, shape, dtype, nus, cfls, rho=1.0):
     outcomes = set()
     for nu, cfl in itertools.product(nus, cfls):
         if sim is None or not big:
-            cfg = dict(kind=kind, shape=shape, dtype=dtype, params=[1e-2, nu, rho], poisson="fastdiag" if kind == "ns3d" and big else "greens")
+            cfg = dict(kind=kind, shape=shape, dtype=dtype, params=[1e-2, nu, rho], x_range=x_range, poisson="fastdiag" if kind == "ns3d" and big else "greens")
             sim = simcfg.make_sim(cfg)
         sim.kinematic_viscosity = nu
         sim.cfl = cfl
-        dx = float(sim.dx)
+        dx = float(real_t(x_range / shape[-1]))  # documented spacing, not read back from the simulator
         for vel in VELS:
             sim.velocity_field[...] = _velocity(vel, dim, shape, real_t)
             umax = float(np.abs(sim.velocity_field.astype(np.float64)).sum(0).max())
@@ -76,7 +76,7 @@ def case_dt(kind, shape, dtype, nus, cfls, rho=1.0):
                 dt = sim.compute_stable_timestep(dt_prefac=p)
                 dts[p] = float(dt)
                 states += 1
-                ctx = dict(kind=kind, shape=shape, dtype=dtype, nu=nu, cfl=cfl, velocity=vel, prefactor=p, dt=float(dt), rho=rho)
+                ctx = dict(kind=kind, shape=shape, dtype=dtype, nu=nu, cfl=cfl, velocity=vel, prefactor=p, dt=float(dt), rho=rho, x_range=x_range)
                 if not np.isfinite(dt) or not dt > 0:
                     fails.append(Fail("dt:finite-positive", "returned time step is not finite and positive", **ctx))
                     continue
@@ -184,11 +184,17 @@ def run(r) -> None:
             for dt in ("float64", "float32"):
                 for rho in (8.0, 0.5):
                     cases.append(dict(kind=kind, shape=shape, dtype=dt, nus=NUS, cfls=CFLS[:2], rho=rho))
+    # domain length (dx = x_range / nx is not 1 / nx)
+    for kind in KINDS:
+        d = simcfg.dim_of(kind)
+        for dt in ("float64", "float32"):
+            for xr in (2.5, 0.01):
+                cases.append(dict(kind=kind, shape=GRIDS[d][1], dtype=dt, nus=NUS, cfls=CFLS[:2], x_range=xr))
     cases.sort(key=lambda c: -int(np.prod(c["shape"])))
     r.run_cases("dt-lattice", "dt", cases)
     mp = [dict(dim=2, field_type="scalar", beta_src=b) for b in ("limit", "returned")]
     mp += [dict(dim=3, field_type=ft, beta_src=b) for ft in ("scalar", "vector") for b in ("limit", "returned")]
     r.run_cases("max-principle", "maxprinciple", mp)
-    r.bounds = {"nu": NUS, "cfl": CFLS, "prefactor": PREFACS, "velocity": VELS, "grids": GRIDS, "kinds": KINDS, "flow_density": [1.0, 8.0, 0.5], "full_product": not quick}
+    r.bounds = {"nu": NUS, "cfl": CFLS, "prefactor": PREFACS, "velocity": VELS, "grids": GRIDS, "kinds": KINDS, "flow_density": [1.0, 8.0, 0.5], "x_range": [1.0, 2.5, 0.01], "full_product": not quick}
     r.extra["rule"] = "dt: one state per (class, grid, dtype, nu, cfl, velocity pattern, prefactor); max principle: one state per unit impulse of the exact diffusion matrix"
     r.assumptions = ["largest grid per dimension reuses one simulator object and sets kinematic_viscosity / cfl attributes"]
